@@ -74,6 +74,8 @@ enum Mode {
     Fold,
     /// reorder (and watermark safety) across several iterations of a single-replica chain
     ReorderIter,
+    /// watermark safety (and reorder) at every probe of the body of a `replay` loop
+    SafetyLoop,
 }
 
 /// The classifier of the open known findings of C06 (see known_findings.json).
@@ -112,8 +114,9 @@ fn downstream_of(job: &TsJob, kind: fn(&TsStage) -> bool, probe: u32) -> bool {
 fn stage_probe_ids(job: &TsJob) -> Vec<(u32, u32, &TsStage)> {
     // (probe before, probe after, stage)
     let mut v = Vec::new();
-    let mut cur = 0u32;
-    let mut next = 1u32;
+    // in a replay job probe 1 is the head of the loop body
+    let mut cur = if job.replay_rounds > 0 { 1u32 } else { 0 };
+    let mut next = cur + 1;
     for st in &job.stages {
         if let TsStage::Merge(_) | TsStage::Zip(_) = st {
             next += 1; // the second source's probe
@@ -141,7 +144,7 @@ fn run_kf(ctx: &Ctx, report: &mut Report) {
         // more elements they are the partial group of the finding
         source.scripts[0][0] = vec![Sx::Ts(1001, 1), Sx::Ts(1002, 2), Sx::Wm(5)];
         let n = ch.range(3, 5) as u8;
-        let job = TsJob { source, stages: vec![TsStage::ReplicateOne, TsStage::CountWindow { k: 1, n, s: n, exact: false }] };
+        let job = TsJob { source, stages: vec![TsStage::ReplicateOne, TsStage::CountWindow { k: 1, n, s: n, exact: false }], replay_rounds: 0 };
         let cfg = gen_cfg(&mut ch);
         let c = counter.get();
         counter.set(c + 1);
@@ -170,7 +173,8 @@ fn run_mode(ctx: &Ctx, mode: Mode, report: &mut Report, cases: u32, stream: u64)
     search(ctx, stream, cases, 60..500, report, |choices, rep, shrinking| {
         let mut ch = Chooser::new(choices);
         let prof = TsProfile {
-            windows: mode == Mode::Safety,
+            windows: mode == Mode::Safety || mode == Mode::SafetyLoop,
+            in_replay: mode == Mode::SafetyLoop,
             non_exact_count_windows: !f4_open,
             reorder_only: mode == Mode::Reorder,
             single_replica_iterations: mode == Mode::ReorderIter,
@@ -187,6 +191,11 @@ fn run_mode(ctx: &Ctx, mode: Mode, report: &mut Report, cases: u32, stream: u64)
                 job.stages.push(if ch.flag(1, 2) { TsStage::GlobalFold } else { TsStage::KeyedFold([1, 2, 3, 7][ch.below(4)]) });
             }
             Mode::Safety => {}
+            Mode::SafetyLoop => {
+                if !job.stages.iter().any(|s| matches!(s, TsStage::Shuffle | TsStage::KeyedMap(_) | TsStage::KeyedFold(_) | TsStage::EventWindow { .. })) {
+                    job.stages.insert(0, TsStage::Shuffle);
+                }
+            }
         }
         if f4_open && job.stages.iter().any(|s| matches!(s, TsStage::CountWindow { .. })) {
             // the non-exact variant is steered away from (open known finding F4)
@@ -197,7 +206,7 @@ fn run_mode(ctx: &Ctx, mode: Mode, report: &mut Report, cases: u32, stream: u64)
         for cfg in &cfgs {
             let n = counter.get();
             counter.set(n + 1);
-            let replay = json!({"property": id, "tsjob": job, "configs": [cfg], "mode": match mode { Mode::Safety => "safety", Mode::Reorder | Mode::ReorderIter => "reorder", Mode::Fold => "fold" }});
+            let replay = json!({"property": id, "tsjob": job, "configs": [cfg], "mode": match mode { Mode::Safety => "safety", Mode::SafetyLoop => "safety_loop", Mode::Reorder | Mode::ReorderIter => "reorder", Mode::Fold => "fold" }});
             let run = match run_ts(&job, cfg, AddrSeed { shard: ctx.shard, job: n }, ctx.tier, shrinking) {
                 Ok(r) => r,
                 Err(message) => return Case::Fail { message, replay },
@@ -219,6 +228,29 @@ fn run_mode(ctx: &Ctx, mode: Mode, report: &mut Report, cases: u32, stream: u64)
                         return Case::Fail { message, replay };
                     }
                 },
+                Mode::SafetyLoop => {
+                    match watermark_safety(&g, &run.info) {
+                        Ok(k) => {
+                            let rounds_seen = g.values().map(|evs| evs.iter().filter(|e| e.kind == renoir::verif::ElemKind::FlushAndRestart).count()).max().unwrap_or(0);
+                            if k >= 1 && cfg.layout.total_cores() >= 2 && rounds_seen >= 2 {
+                                nontrivial = Some(fingerprint(&(&job, cfg)));
+                            }
+                        }
+                        Err((_, message)) => return Case::Fail { message, replay },
+                    }
+                    for (before, after, st) in stage_probe_ids(&job) {
+                        if let TsStage::Reorder = st {
+                            if let Err(message) = reorder_oracle(&g, before, after) {
+                                return Case::Fail { message, replay };
+                            }
+                        }
+                    }
+                    // the loop ran the requested number of rounds: the state counts the elements
+                    // that reached the end of the body, and exactly one state element leaves
+                    if run.sink.len() != 1 {
+                        return Case::Fail { message: format!("the replay loop emitted {} state elements (expected 1)", run.sink.len()), replay };
+                    }
+                }
                 Mode::Reorder | Mode::ReorderIter => {
                     if mode == Mode::ReorderIter {
                         // the safety monitor also holds across the iterations of the chain
@@ -457,6 +489,7 @@ fn run(ctx: &Ctx, mode: &str) -> Report {
     let mut report = Report::default();
     match (ctx.id.as_str(), mode) {
         ("C06", "kf") => run_kf(ctx, &mut report),
+        ("C06", "loop") => run_mode(ctx, Mode::SafetyLoop, &mut report, ctx.cases(240, 6000), 5),
         ("C06", _) => run_mode(ctx, Mode::Safety, &mut report, ctx.cases(500, 12000), 1),
         (_, "reorder") => run_mode(ctx, Mode::Reorder, &mut report, ctx.cases(240, 6000), 2),
         (_, "reorder_iter") => run_mode(ctx, Mode::ReorderIter, &mut report, ctx.cases(240, 6000), 4),
@@ -495,6 +528,14 @@ pub fn replay_ts(ctx: &Ctx, v: &Value) -> Result<String, String> {
             let run = run_ts(&job, cfg, AddrSeed { shard: 215, job: rep * 8 + n }, ctx.tier, false)?;
             let g = group(&run.probes);
             match mode {
+                "safety_loop" => {
+                    watermark_safety(&g, &run.info).map_err(|e| e.1)?;
+                    for (b, a, st) in stage_probe_ids(&job) {
+                        if let TsStage::Reorder = st {
+                            reorder_oracle(&g, b, a)?;
+                        }
+                    }
+                }
                 "reorder" => {
                     for (b, a, st) in stage_probe_ids(&job) {
                         if let TsStage::Reorder = st {
@@ -528,9 +569,9 @@ pub fn def() -> CheckDef {
     CheckDef {
         id: "C06",
         level: "exploration",
-        rule: "random timestamped jobs: 1-5 scripted source replicas whose scripts respect the watermark contract (out-of-order within the bound, replicas without watermarks / without data / ending early, explicit FlushBatch), then 1-6 stages out of map, filter, flat_map, shuffle, group_by, replication(One), batch_mode, reorder, fold, keyed fold, count window, event-time window, merge / zip with a second scripted source, drop_timestamps; 2 deployments each; oracle at every probe of every replica, per iteration: after Watermark(t) no element with timestamp <= t and no watermark <= t; non-trivial = some probe saw >= 2 watermarks and the deployment has >= 2 replicas; distinct = hash of (job, configuration)",
+        rule: "random timestamped jobs: 1-5 scripted source replicas whose scripts respect the watermark contract (out-of-order within the bound, replicas without watermarks / without data / ending early, explicit FlushBatch), then 1-6 stages out of map, filter, flat_map, shuffle, group_by, replication(One), batch_mode, reorder, fold, keyed fold, count window, event-time window, merge / zip with a second scripted source, drop_timestamps; 2 deployments each; oracle at every probe of every replica, per iteration: after Watermark(t) no element with timestamp <= t and no watermark <= t; non-trivial = some probe saw >= 2 watermarks and the deployment has >= 2 replicas; distinct = hash of (job, configuration); mode loop: the stages (map, filter, flat_map, shuffle, group_by, batch_mode, reorder, keyed fold, event-time window) are the body of replay(2-4 rounds) over the scripted source, whose timestamped script the loop head replays every round - same oracle per round at every probe of the body, non-trivial additionally needs >= 2 rounds observed",
         assumptions: &["arrival interleavings at multi-input blocks are sampled here and owned (lock-step) in C17's frontier model check"],
-        modes: |t| vec![("main", t.pick(8, 14)), ("kf", 1)],
+        modes: |t| vec![("main", t.pick(8, 12)), ("loop", t.pick(4, 6)), ("kf", 1)],
         run,
         replay: replay_ts,
     }
